@@ -70,6 +70,9 @@ def make_case(prop, seed, i, tier):
             spec["sim"]["max_time"] = G.feasible_bound(spec)
             return dict(prop=prop, i=i, kind="feasible", source="feasible-specialist-long", spec=spec)
         return dict(prop=prop, i=i, kind="feasible", source="feasible-specialist", spec=spec)
+    if i >= len(pairs()) and i % 20 == 3:
+        # the specialist joins the team only at a pause: feasible from then on
+        return dict(prop=prop, i=i, kind="late-worker", source="feasible-specialist-joins-at-pause", spec=gen_specialist(rng), k=rng.choice([1, 2, 3, 5]))
     if i >= len(pairs()) and i % 20 == 13:
         # wide and finish-gated models with a worker per task (class 2), status cases on other large models
         kind = rng.choice(["wide", "ff_chain", "one_component", "long", "many_resources"])
@@ -131,9 +134,51 @@ def make_case(prop, seed, i, tier):
     return dict(prop=prop, i=i, kind="status", source="random", spec=spec)
 
 
+def run_late_worker(case, res):
+    from . import instr as I
+    from . import build as B
+    from .runner import exc_info
+    spec = case["spec"]
+    I.install()
+    I.set_order(I.default_order(spec))
+    m = B.build(spec)
+    p = m.project
+    team = p.organization.team_list[0]
+    late = team.worker_list.pop(0)            # the specialist is not yet a member
+    res["source"] = case.get("source")
+    res.count("C05.runs")
+    res.count("C05.kind.late-worker")
+    try:
+        B.run(p, spec, max_time=case["k"])
+        n_ = len(p.cost_list)
+        late.state_record_list = [ns.BaseWorkerState.FREE] * n_
+        late.cost_list = [0.0] * n_
+        late.assigned_task_id_record = [[] for _ in range(n_)]
+        team.add_worker(late)
+        B.run(p, spec, initialize_state_info=False, initialize_log_info=False, max_time=spec["sim"]["max_time"] + case["k"])
+    except Exception as e:
+        err = exc_info(e)
+        res["aborted"] = err
+        res.violate("C05", "C05/exception-from-simulate:%s:%s:late-worker" % (err["type"], err["where"]), "simulate() raised %s: %s" % (err["type"], err["msg"]))
+        return res
+    res.count("C05.feasible_runs")
+    res.count("C05.status_checks")
+    if p.status != P.FINISHED_SUCCESS:
+        stuck = [(t.ID, t.state.name, t.remaining_work_amount) for t in p.workflow.task_list if t.state != M.TS.FINISHED]
+        res.violate("C05", "C05/feasible-project-did-not-complete:worker-joined-at-pause",
+                    "the only worker for some tasks joined his team at the pause (step %d); the resumed run returned %s at time %d (bound %d); stuck tasks %s" % (
+                        case["k"], p.status.name, p.time, spec["sim"]["max_time"] + case["k"], stuck[:6]))
+    res["nontrivial"] = True
+    res["status"] = int(p.status)
+    res["time"] = p.time
+    return res
+
+
 def run_case(case):
     spec = case["spec"]
     res = Result(case)
+    if case["kind"] == "late-worker":
+        return run_late_worker(case, res)
     sl = StepLog()
     m, tr, err = forward(spec, lambda started: [sl])
     res["source"] = case.get("source")
